@@ -23,7 +23,7 @@ MODES = [
     {"mode": "inj", "extract": "Extract_LocksInj.v", "model": "Model/LocksInj.v", "what": "cds::sync::injecting_monitor", "anchor": "cds/sync/injecting_monitor.h"},
     {"mode": "pool", "extract": "Extract_PoolMon.v", "model": "Model/PoolMon.v", "what": "cds::sync::pool_monitor", "anchor": "cds/sync/pool_monitor.h"},
 ]
-QUICK_N = {"spin": 200, "re": 400, "arr": 300, "inj": 150, "pool": 450}
+QUICK_N = {"spin": 300, "re": 600, "arr": 400, "inj": 200, "pool": 700}
 SPIN_FUEL = 4000
 
 
@@ -171,7 +171,7 @@ def bad_end(ilog):
     for x in (ilog or {}).get("extra", []):
         t = x.split()
         if t[:2] == ["monitor", "crashed"]: return "crashes (signal %s)" % t[2]
-        if t[:2] == ["monitor", "hung"]: return "hangs (a lock is never released, or livelock; no progress within 5 s)"
+        if t[:2] == ["monitor", "hung"]: return "hangs (a lock is never released, or livelock; no progress within 8 s)"
     return None
 
 
@@ -271,10 +271,41 @@ def minimise(ctx, impl, mode, case, what):
     return cur
 
 
+MODEL_DEPS = {"spin": ["SpinLock"], "re": ["Reentrant"], "arr": ["SpinLock", "Locks", "LocksArray"],
+              "inj": ["SpinLock", "Locks", "LocksInj"], "pool": ["PoolMon"]}
+
+
+def build_model(ctx, md):
+    """like conc_check.build_model, but keyed only by the sources this model is made of (Base/Conc.v, Base/Events.v,
+    its Model/*.v, its Extract file, the OCaml driver), so that unrelated models changing do not force a rebuild"""
+    import re as _re
+    mode = md["mode"]
+    d = os.path.join(ctx.work, "model_" + mode)
+    os.makedirs(d, exist_ok=True)
+    srcs = [os.path.join(vcheck.COQ, "Extract", md["extract"]), os.path.join(vcheck.VERIF, "ocaml", "conc_main.ml"),
+            os.path.join(vcheck.COQ, "Base", "Conc.v"), os.path.join(vcheck.COQ, "Base", "Events.v")] + \
+           [os.path.join(vcheck.COQ, "Model", m + ".v") for m in MODEL_DEPS[mode]]
+    key = vcheck.file_hash(srcs)
+    exe = os.path.join(d, "model_exe"); stamp = exe + ".key2"
+    if os.path.exists(exe) and os.path.exists(stamp) and open(stamp).read() == key:
+        return exe
+    rc, out = vcheck.sh(["make", "-j4"] + ["Model/%s.vo" % m for m in MODEL_DEPS[mode]], cwd=vcheck.COQ, timeout=900)
+    if rc != 0:
+        raise vcheck.BuildError("coq model does not build:\n" + out[-3000:])
+    rc, out = vcheck.extract(md["extract"], d)
+    if rc != 0:
+        raise vcheck.BuildError("extraction failed:\n" + out[-3000:])
+    rc, out = vcheck.ocaml_build(d, ["model.mli", "model.ml", os.path.join(vcheck.VERIF, "ocaml", "conc_main.ml")], exe)
+    if rc != 0:
+        raise vcheck.BuildError("ocaml build failed:\n" + out[-3000:])
+    open(stamp, "w").write(key)
+    return exe
+
+
 def prepare_mode(ctx, md):
     """build the extracted model and the list of cases (corpus first) of one mode"""
     mode = md["mode"]
-    model = conc_check.build_model(ctx, md["extract"], tag="model_" + mode)
+    model = build_model(ctx, md)
     n = QUICK_N[mode] * (5 if ctx.thorough() else 1)
     cases = []
     cdir = os.path.join(vcheck.VERIF, "corpus", "C22")
@@ -340,6 +371,11 @@ def check_mode(ctx, p, impl, stats):
             st["contended"] += 1; cshapes.add(sh)
         for ft in features(mode, i):
             st["features"][ft] = st["features"].get(ft, 0) + 1
+        if bad_end(i) and "hangs" in bad_end(i):
+            # confirm alone: on an overloaded machine a case can exceed the harness' watchdog without being stuck
+            one, _ = run_impl(ctx, impl, mode, [c], "confirm_" + mode, timeout=60)
+            if one.get(c["id"]) and one[c["id"]]["end"] is not None and not bad_end(one[c["id"]]):
+                i = one[c["id"]]; st["slow_cases"] = st.get("slow_cases", 0) + 1
         finds = monitor_findings(mode, i)
         be = bad_end(i)
         for what, detail in finds:
@@ -401,7 +437,7 @@ def replay(ctx, impl):
     if c is None:
         ctx.log("replay file has no case (no failing input was found at the time)"); return
     c = dict(c); c.setdefault("id", "replay")
-    model = conc_check.build_model(ctx, md["extract"], tag="model_" + mode)
+    model = build_model(ctx, md)
     mlog = run_model(ctx, model, [c], "rp_m")
     ilog, status = run_impl(ctx, impl, mode, [c], "rp_i", timeout=30)
     i = ilog.get(c["id"]); m = mlog.get(c["id"])
@@ -434,6 +470,11 @@ def run(ctx):
             s = check_mode(ctx, p, impl, stats)
             if s is not None:
                 samples.append({k: s[k] for k in ("mode", "cfg", "threads", "sched")})
+    if ctx.thorough() and res.ok and not ctx.replay:
+        rc, out = vcheck.coqchk("LV.Properties.Properties_C22")
+        ctx.coverage["coqchk"] = "ok" if rc == 0 else out[-600:]
+        if rc != 0:
+            ctx.violation("coqchk rejects LV.Properties.Properties_C22", {"theorem": "Properties_C22", "coqchk": out[-1500:]}, no_input=True)
     if not res.ok:
         ctx.violation("Coq obligations of C22 do not check: %s" % (res.failed[:2],), {"theorem": [f[2] for f in res.failed], "errors": res.failed[:3]}, no_input=True)
     tot = lambda k: sum(s[k] for s in stats.values())
